@@ -290,6 +290,43 @@ func buildIntercepts() map[string]interceptFn {
 			return nil
 		}}}, true
 	}
+	// ---- verified summary: bmtree.PathToIndex for full-height or empty paths ----
+	// Closed form (sizes 17 and 257): empty path -> 0, full path with bits v -> 1+v.
+	// The lemma harness k_path_summary proves it equal to the real function on every run
+	// (with the summary switched off); any other shape of call falls through to the real code.
+	ic["github.com/openacid/low/bmtree.PathToIndex"] = func(m *Machine, f *Frame, a []value) (value, bool) {
+		if m.noSummaries {
+			return nil, false
+		}
+		sz, path := a[0].(*Term), a[1].(*Term)
+		if !sz.IsConst() || (sz.k != 17 && sz.k != 257) {
+			return nil, false
+		}
+		h := uint64(4)
+		if sz.k == 257 {
+			h = 8
+		}
+		low := m.tb.Extract(path, 0, 32)
+		if !low.IsConst() {
+			return nil, false
+		}
+		hi := m.tb.Extract(path, 32, 32)
+		switch {
+		case low.k == 0:
+			// an empty path has no bits set at all (NewPath); require it
+			if !hi.IsConst() || hi.k != 0 {
+				return nil, false
+			}
+			return m.tb.Const(32, 0), true
+		case low.k == (uint64(1)<<h)-1:
+			if hi.hi >= uint64(1)<<h {
+				return nil, false
+			}
+			m.stubsHit["summary:PathToIndex(verified by k_path_summary)"]++
+			return m.tb.Add(hi, m.tb.Const(32, 1)), true
+		}
+		return nil, false
+	}
 	// ---- protobuf registration (no-ops) ----
 	for _, n := range []string{"RegisterType", "RegisterFile", "RegisterEnum", "RegisterMapType", "RegisterExtension"} {
 		ic["github.com/golang/protobuf/proto."+n] = func(m *Machine, f *Frame, a []value) (value, bool) { return nil, true }
